@@ -165,7 +165,7 @@ fn main() {
         // values: every string up to length 3 over structural characters and a two-byte character, plus longer samples
         let mut values = strings(&["\"", "\\", ",", ";", "<", ">", " ", "\n", "a", "\u{e9}", "="], 3);
         values.push("x\\\"y,;<> \n\u{1F600}=\\".to_string());
-        let plain = ["", "a", "ab=c", "\u{e9}x", "a b"];
+        let plain = ["", "a", "ab=c", "\u{e9}x", "a b", "21\u{a0}", "\u{3000}x", "\u{85}", "x\u{2028}"];
         let targets = ["", "/", "/a/b", "a,b;c\"d e", "\u{e9}<"];
         for newlines in [false, true] {
             // (1) one link, one quoted attribute, every value
@@ -176,6 +176,14 @@ fn main() {
                 let want = vec![(t.to_string(), vec![("k".to_string(), v.clone())])];
                 if got != want { found("link-format-roundtrip", format!("newlines={} link {:?} attr_quoted(k, {:?}) wrote {:?} parsed {:?}", newlines, t, v, text, got)); }
             } }
+            // (1b) attr() decides itself whether to quote
+            for v in values.iter().map(|s| s.as_str()).chain(plain.iter().copied()) {
+                let mut text = String::new();
+                { let mut w = LinkFormatWrite::new(&mut text); w.set_add_newlines(newlines); let _ = w.link("/t").attr("k", v).finish(); let _ = w.finish(); }
+                let got: Vec<(String, Vec<(String, String)>)> = LinkFormatParser::new(&text).map(|r| match r { Ok((l, a)) => (l.to_string(), a.map(|(k, u)| (k.to_string(), u.to_string())).collect()), Err(_) => ("<error>".into(), vec![]) }).collect();
+                let want = vec![("/t".to_string(), vec![("k".to_string(), v.to_string())])];
+                if got != want { found("link-format-roundtrip", format!("newlines={} attr(k, {:?}) wrote {:?} parsed {:?}", newlines, v, text, got)); }
+            }
             // (2) several links with all three writer methods
             for n_links in 0..4usize { for n_attrs in 0..4usize {
                 let mut text = String::new();
